@@ -1,6 +1,7 @@
 import VarmqVerif.Model.Res
 import VarmqVerif.Model.Job
 import VarmqVerif.Model.Sig
+import VarmqVerif.Model.Sig2
 import VarmqVerif.Model.Wake
 import VarmqVerif.Model.Ack
 import VarmqVerif.Model.Pool
@@ -311,6 +312,77 @@ def feed (st : RState St) (lineNo : Nat) (l : RawLine) : RState St :=
       | .error e => .rejected lineNo s!"{e} @ {l.tag} {l.g} {" ".intercalate l.f}"
   | r => r
 end SigMap
+
+-- ---------------------------------------------------------------- Sig2 (Sig with Stop/Restart)
+namespace SigMap2
+open Sig2
+
+structure St where
+  s : State := Sig2.init 1
+  queue : Option String := none      -- the single queue this model follows
+
+def isQueueObj (o : String) : Bool := o.startsWith "Queue#" || o.startsWith "PriorityQueue#"
+
+/-- "ch#7:eventLoopSignal" → 7 -/
+def chanId (obj : String) : Nat := natOf (((obj.drop 3).toString.splitOn ":").headD "")
+
+def events (x : St) (l : RawLine) : Except String (St × List Ev) :=
+  let g := l.g
+  let s := x.s
+  match l.tag, l.f with
+  | "A", _ => .error "NA adapter-backed queue"
+  | "E", [fn, obj, op, arg, res] =>
+    if obj.startsWith "worker#" && !(obj.startsWith "worker#1.") then .error "NA second worker"
+    else if fn == "worker.goEventLoop" && op == "go" then .ok (x, [.spawnD g (natOf (arg.drop 1).toString)])
+    else if obj == "nilchan" && fn == "worker.notifyToPullNextJobs" then
+      (if s.chan.isSome then .error "notify on a nil channel while the model has a signal channel" else .ok (x, [.notify g (res == "true")]))
+    else if obj.endsWith ":eventLoopSignal" then
+      let ch := chanId obj
+      if op == "make" then .ok (x, [.makeSig g ch])
+      else if op == "close" then (if s.chan != some ch then .error "close of a signal channel that is not the current one" else .ok (x, [.closeSig g]))
+      else if op == "recv" then
+        (if isD s g && s.dch g != ch then .error "event loop receives on a channel other than the one it was started on"
+         else if res == "closed" then .ok (x, [.recvClosed g]) else .ok (x, [.recvTok g]))
+      else if op == "trysend" then (if s.chan != some ch then .error "notify on a signal channel that is not the current one" else .ok (x, [.notify g (res == "true")]))
+      else .error s!"unmodelled operation {op} on the signal channel in {fn}"
+    else if obj == "worker#1.status" then
+      if op == "store" then .ok (x, [.stStatus g (natOf arg)])
+      else if op == "load" && fn == "worker.IsRunning" && isD s g && (s.dph g == .fresh || s.dph g == .busy) then .ok (x, [.dStatus g (natOf res)])
+      else .ok (x, [])
+    else if obj == "worker#1.curProcessing" then
+      if op == "load" && fn == "worker.goEventLoop$1" then .ok (x, [.dCur g (natOf res)])
+      else if op == "cas" && res == "true" then (if isD s g then .ok (x, [.dCasOk g]) else .error "reserve CAS by a goroutine that is not an event loop")
+      else if op == "add" then (if isD s g then .ok (x, [.dRel g (natOf res)]) else .ok (x, [.relX g (natOf res)]))
+      else .ok (x, [])
+    else if obj == "worker#1.concurrency" then
+      if op == "load" && fn == "worker.goEventLoop$1" then .ok (x, [.dConc g (natOf res)])
+      else if op == "store" then
+        if fn.startsWith "new" then .ok ({ x with s := { x.s with conc := natOf arg } }, []) else .ok (x, [.stConc g (natOf arg)])
+      else .ok (x, [])
+    else if fn == "Manager.Len" && op == "ret:Len" && isD s g && s.dph g == .sawRoom then
+      .ok (x, [.dLen g 0])
+    else if isQueueObj obj && (op.startsWith "ret:") then
+      let q := x.queue.getD obj
+      let x := { x with queue := some q }
+      if q != obj then .error "NA several queues"
+      else if op == "ret:Len" then (if isD s g && s.dph g == .sawRoom then .ok (x, [.dLen g (natOf res)]) else .ok (x, []))
+      else if op == "ret:Enqueue" then (if res == "true" then .ok (x, [.enq g]) else .ok (x, []))
+      else if op == "ret:Dequeue" then (if res.endsWith ",true" then (if isD s g then .ok (x, [.dDeq g]) else .ok (x, [.deqX g])) else .ok (x, []))
+      else .ok (x, [])
+    else .ok (x, [])
+  | _, _ => .ok (x, [])
+
+def feed (st : RState St) (lineNo : Nat) (l : RawLine) : RState St :=
+  match st with
+  | .ok x =>
+    match events x l with
+    | .error e => if e.startsWith "NA" then .na e else .rejected lineNo s!"{e} @ {l.tag} {l.g} {" ".intercalate l.f}"
+    | .ok (x', evs) =>
+      match feedAll Sig2.step x'.s evs with
+      | .ok s' => .ok { x' with s := s' }
+      | .error e => .rejected lineNo s!"{e} @ {l.tag} {l.g} {" ".intercalate l.f}"
+  | r => r
+end SigMap2
 
 -- ---------------------------------------------------------------- Wake
 namespace WakeMap
